@@ -101,6 +101,14 @@ func vhBuildC05x(g *vhDigits, depth int, vs *vhVals, mut int, capBoth bool) Stac
 	default:
 		s = Basic(capArg)
 	}
+	// display and addressing options and the operator symbol are part of
+	// neither tree's identity; both sides carry the same ones
+	if cfg, _ := s.config(); vhC05Opts {
+		cfg.opt = vhC05Opt
+		if kind != 2 && vhC05Sym != "" {
+			cfg.sym = vhC05Sym
+		}
+	}
 	w := 1 + g.next(3)
 	var elems []any
 	for i := 0; i < w; i++ {
@@ -138,6 +146,12 @@ func vhBuildC05x(g *vhDigits, depth int, vs *vhVals, mut int, capBoth bool) Stac
 	return s
 }
 
+var (
+	vhC05Opts bool
+	vhC05Opt  cfgFlag
+	vhC05Sym  string
+)
+
 // vhRefEqual is the reference comparison over the harness's type universe.
 func vhRefEqual(x, y any) bool {
 	// pointers are flattened regardless of depth before comparing (documented)
@@ -147,7 +161,7 @@ func vhRefEqual(x, y any) bool {
 	}
 	if sx, ok := vhStackOf(x); ok {
 		sy, ok2 := vhStackOf(y)
-		if !ok2 || sx.Kind() != sy.Kind() || sx.Cap() != sy.Cap() || sx.Len() != sy.Len() {
+		if !ok2 || sx.stackType() != sy.stackType() || sx.Cap() != sy.Cap() || sx.Len() != sy.Len() {
 			return false
 		}
 		for i := 1; i < len(*sx.stack); i++ {
@@ -221,6 +235,7 @@ func VH_C05(p []int) {
 		vb[k] = nondetInt()
 	}
 	capBoth := p[2] >= 6
+	vhC05Opts, vhC05Opt, vhC05Sym = true, cfgFlag(nondetUint16())&vhOptMask, []string{"", "+"}[nondetChoice(2)]
 	x := vhBuildC05x(&vhDigits{d: p[3:]}, p[0], &vhVals{v: va}, 0, capBoth)
 	y := vhBuildC05x(&vhDigits{d: p[3:]}, p[0], &vhVals{v: vb}, p[2], capBoth)
 	want := vhRefEqual(x, y)
